@@ -39,6 +39,10 @@ impl<'a> StatefulPropagationContext<'a> {
 
 impl<'a> PropagationContext<'a> {
     #[verifier::external_body]
+    pub fn is_literal_false(&self, literal: &Literal) -> (r: bool)
+        ensures r ==> forall|a: Asg| #![trigger (self.assignments.live@)(a)] (self.assignments.live@)(a) ==> !lit_true(*literal, a)
+    { unimplemented!() }
+    #[verifier::external_body]
     pub fn is_literal_true(&self, literal: &Literal) -> (r: bool)
         ensures r ==> forall|a: Asg| #![trigger (self.assignments.live@)(a)] (self.assignments.live@)(a) ==> lit_true(*literal, a)
     { unimplemented!() }
@@ -99,7 +103,26 @@ impl<'a> PropagationContextMut<'a> {
 }
 
 pub struct PropagatorInitialisationContext { pub x: u8 }
+#[derive(Clone, Copy)]
 pub struct LocalId { pub v: u32 }
+impl vstd::std_specs::cmp::PartialOrdSpecImpl for LocalId {
+    open spec fn obeys_partial_cmp_spec() -> bool { true }
+    open spec fn partial_cmp_spec(&self, other: &LocalId) -> Option<std::cmp::Ordering> {
+        if self.v < other.v { Some(std::cmp::Ordering::Less) } else if self.v == other.v { Some(std::cmp::Ordering::Equal) } else { Some(std::cmp::Ordering::Greater) }
+    }
+}
+impl vstd::std_specs::cmp::PartialEqSpecImpl for LocalId {
+    open spec fn obeys_eq_spec() -> bool { true }
+    open spec fn eq_spec(&self, other: &LocalId) -> bool { self.v == other.v }
+}
+impl PartialEq for LocalId { fn eq(&self, other: &LocalId) -> (r: bool) { self.v == other.v } }
+impl PartialOrd for LocalId {
+    fn partial_cmp(&self, other: &LocalId) -> (r: Option<std::cmp::Ordering>) {
+        if self.v < other.v { Some(std::cmp::Ordering::Less) } else if self.v == other.v { Some(std::cmp::Ordering::Equal) } else { Some(std::cmp::Ordering::Greater) }
+    }
+}
+#[derive(Clone, Copy)]
+pub struct OpaqueDomainEvent { pub e: u8 }
 
 // ---- the wrapped propagator, by contract ----
 pub trait Propagator {
@@ -127,6 +150,13 @@ pub trait Propagator {
     // a conjunction that holds in the current state and contradicts the constraint
     fn detect_inconsistency(&self, context: StatefulPropagationContext) -> (r: Option<PropositionalConjunction>)
         ensures r matches Some(c) ==> valid_conflict(context.live(), |a: Asg| self.constraint(a), c);
+
+    // the backtrack events this propagator has been told about (it is told about EVERY one for its variables: propagators
+    // such as linear not-equal keep non-trailed counters that only stay right if notify and notify_backtrack pair up)
+    spec fn undone(&self) -> Seq<(LocalId, OpaqueDomainEvent)>;
+    fn notify_backtrack(&mut self, context: PropagationContext, local_id: LocalId, event: OpaqueDomainEvent)
+        ensures forall|a: Asg| #[trigger] final(self).constraint(a) == old(self).constraint(a),
+                final(self).undone() == old(self).undone().push((local_id, event));
 
     // the incremental state of the propagator reflects the given store (backtracking protocol: the engine calls
     // `synchronise` on every propagator after a backtrack, whatever the value of a reification literal)
